@@ -478,6 +478,11 @@ class Program:
     def has_fn(self, path):
         return path in self.fns
 
+    def view(self, path, keep=(), **kw):
+        """the function read through its crate-private helpers (inline.view); `keep`: callees that stay calls"""
+        from . import inline
+        return inline.view(self, self.fn(path), keep=keep, **kw)
+
     def adt(self, path):
         a = self.adts.get(path)
         if a is None:
